@@ -83,13 +83,13 @@ func vfNext(kind string) uint64 {
 	return v.Value
 }
 
-func vfByte() byte   { return byte(vfNext("byte")) }
-func vfU16() uint16  { return uint16(vfNext("u16")) }
-func vfU32() uint32  { return uint32(vfNext("u32")) }
-func vfI64() int64   { return int64(vfNext("i64")) }
-func vfU64() uint64  { return vfNext("u64") }
-func vfInt() int     { return int(int64(vfNext("i64"))) }
-func vfBool() bool   { return vfNext("bool") != 0 }
+func vfByte() byte  { return byte(vfNext("byte")) }
+func vfU16() uint16 { return uint16(vfNext("u16")) }
+func vfU32() uint32 { return uint32(vfNext("u32")) }
+func vfI64() int64  { return int64(vfNext("i64")) }
+func vfU64() uint64 { return vfNext("u64") }
+func vfInt() int    { return int(int64(vfNext("i64"))) }
+func vfBool() bool  { return vfNext("bool") != 0 }
 func vfBytes(n int) []byte {
 	b := make([]byte, n)
 	for i := range b {
@@ -103,7 +103,7 @@ func vfString(n int) string { return string(vfBytes(n)) }
 func vfAlignedBytes(n int, r int) []byte {
 	raw := make([]byte, n+16)
 	off := 0
-	for (int(uintptr(unsafe.Pointer(&raw[off])))&7) != (r & 7) {
+	for (int(uintptr(unsafe.Pointer(&raw[off]))) & 7) != (r & 7) {
 		off++
 	}
 	b := raw[off : off+n : off+n]
@@ -148,6 +148,7 @@ func vfReach(id string) {
 		vfAssert(false, "twin-"+id)
 	}
 }
+
 // vfAllocBound: natively the bytes allocated from here on are measured and
 // compared (generously) with the declared per-allocation bound.
 var vfAllocK int
